@@ -11,8 +11,8 @@ RULE = (
     "nx, ny in 4..9 (even and odd) x even mode counts 2..12 per axis x halo {0, None, 0.7dx, 1.6dx, 2dx} x {dispersion, footprint}: "
     "thorough enumerates all tuples of the wider range nx, ny in 4..11, modes 2..16 (40 960 tuples, exhaustive over that range), quick a "
     "Latin subsample of the 4..9 / 2..12 range; each accepted tuple is "
-    "checked for shape/coordinates, low-pass relation (halo=0), registration against pad/halo=0/crop (halo>0) and over-request "
-    "equivalence; ValueError/IndexError are accepted outcomes and counted.  non-trivial = accepted tuple with truncation, a halo "
+    "checked for shape/coordinates, low-pass relation (halo=0), registration against pad/halo=0/crop (halo>0), over-request "
+    "equivalence and - with all modes retained - the exact surface-level identity (flux at z0 == source / unit pulse at the tower); ValueError/IndexError are accepted outcomes and counted.  non-trivial = accepted tuple with truncation, a halo "
     "pad >= 1 or an odd size; distinct = distinct tuples"
 )
 ASSUMPTIONS = [
@@ -83,6 +83,14 @@ def run_case(case):
         except (ValueError, IndexError) as e:
             return (type(e).__name__, str(e)[:80])
 
+    def call_lv0(q, d, modes, h, fp, mp):
+        counters["solver_calls"] += 1
+        try:
+            g, c, f = S(q, z, prof, d, 0, modes=modes, halo=h, precision="double", footprint=fp, meas_pt=mp)
+            return ("ok", g, np.asarray(c), np.asarray(f))
+        except (ValueError, IndexError) as e:
+            return (type(e).__name__, str(e)[:80])
+
     def over(n):
         return n + 2 + n % 2
 
@@ -122,6 +130,22 @@ def run_case(case):
                                                   and np.all(X == X[0:1, 0:1, :]) and np.all(Y == Y[0:1, :, 0:1])):
                     viol.append({"what": "output_coordinates", "tuple": tup})
                 clamp_both = mx > nxe or my > nye  # the code's documented reading: both set to the padded size
+                # (e) surface level: with every mode of the padded grid retained the flux at z0 IS the source (dispersion) / a unit
+                # pulse in the tower's cell (footprint) - exact, and independent of any second run of the same code
+                if clamp_both or (mx == nxe and my == nye):
+                    counters["surface_identity_checks"] = counters.get("surface_identity_checks", 0) + 1
+                    r0 = call_lv0(q0, dom, (mx, my), halo, fp, mp if fp else (0.0, 0.0))
+                    if r0[0] == "ok":
+                        f0 = r0[3]
+                        if fp:
+                            exp0 = np.zeros((ny, nx))
+                            exp0[1, 2] = 1.0
+                        else:
+                            exp0 = q0
+                        e0 = float(np.max(np.abs(f0 - exp0))) / max(float(np.max(np.abs(exp0))), 1e-300)
+                        resid["surface_identity"] = max(resid.get("surface_identity", 0.0), e0)
+                        if f0.shape != exp0.shape or e0 > 1e-11:
+                            viol.append({"what": "surface_flux_is_not_the_source_with_all_modes_retained", "tuple": tup, "rel": e0, "padded": (nxe, nye)})
                 trunc = (not clamp_both) and (mx < nxe or my < nye)
                 # (d) over-request / mixed request
                 if mx >= nxe and my >= nye:
